@@ -307,7 +307,7 @@ def same(a, impl, model):
 class C01(Prop):
     id = 'C01'
     extracted = True      # the actions regenerated from the current source (harness/extract_m.py TrF, Extracted/EquivC01.lean)
-    quick_cases = 2500
+    quick_cases = 6000
     thorough_cases = 40000
     quick_budget_s = 60
     thorough_budget_s = 600
